@@ -511,6 +511,40 @@ def triclinic_obligation(chk, F, rng):
             chk.violation("triclinic:raises", "fill_cij(..., 'triclinic') raises %s: %s" % (type(e).__name__, e), dict(table=data))
 
 
+def empty_set_obligation(chk, F, rng):
+    """The empty subset of supplied components: a table with no modulus column at all is under-determined like any other insufficient
+    table -- refused with the rank Warning, accepted (nothing to report) under ignore_rank."""
+    for ign_rank in (False, True):
+        name = "cubic:refusal[no modulus column, ignore_rank=%s]" % ign_rank
+        ctx = new_context()
+        df = pandas.DataFrame({"V": [100.0, 95.0], "P": symarray([ctx.var("p0"), ctx.var("p1")])})
+        try:
+            paths, proxy, ex = FC.run_fill(F, df, "cubic", explorer=X.Explorer(max_paths=8, name=name), ignore_rank=ign_rank)
+        except (SymError, X.PathBudgetExceeded) as e:
+            chk.inconclusive(name, str(e))
+            continue
+        outcomes = ["Warning" if isinstance(p.exception, Warning) else (type(p.exception).__name__ if p.exception is not None else "accept") for p in paths]
+        good = all(o == ("accept" if ign_rank else "Warning") for o in outcomes)
+        chk.obligation(name + (": accepted" if ign_rank else ": rank Warning"), "unsat" if good else "sat", kind="refusal-iff", detail=dict(outcomes=outcomes))
+        if not good:
+            try:
+                with warnings.catch_warnings():
+                    warnings.simplefilter("ignore")
+                    F.fill_cij(pandas.DataFrame({"V": [100.0, 95.0], "P": [1.0, 2.0]}), "cubic", ignore_rank=ign_rank)
+                got = "accepts"
+            except Warning:
+                got = "Warning"
+            except BaseException as e:
+                if isinstance(e, (KeyboardInterrupt, SystemExit)):
+                    raise
+                got = "%s: %s" % (type(e).__name__, e)
+            if got != ("accepts" if ign_rank else "Warning"):
+                chk.violation("empty-set:ignore_rank=%s" % ign_rank, "fill_cij(table without any modulus column, 'cubic', ignore_rank=%s) gives '%s' instead of %s"
+                              % (ign_rank, got, "accepting the table" if ign_rank else "the rank Warning"), {})
+            else:
+                chk.harness_error("%s did not reproduce" % name)
+
+
 def configuration_twins(chk, F, rng):
     """Stage R(c): the same fill under configurations symbolic values cannot carry (dtype, cwd, relation-file path)."""
     from cij.data import get_data_fname
@@ -630,6 +664,26 @@ def configuration_twins(chk, F, rng):
                 raise
             chk.violation("twin:relations-file-blank-lines", "fill_cij(table, <path>) raises %s: %s for a relations file that equals the packaged "
                           "one up to a blank line between two relations and one at the end" % (type(e).__name__, str(e)[:100]), {})
+        # (3c) the same relations written with upper-case symbols (letter case must not matter)
+        try:
+            with open(get_data_fname("constraints/" + system)) as fp:
+                upper_txt = fp.read().replace("c", "C")
+            upfile = os.path.join(tmp, "RELATIONS_UPPER.txt")
+            with open(upfile, "w") as fp:
+                fp.write(upper_txt)
+            with warnings.catch_warnings():
+                warnings.simplefilter("ignore")
+                out = F.fill_cij(base.copy(), upfile)
+            d = same(out)
+            if d:
+                chk.violation("twin:relations-file-upper-case", "a relations file written with upper-case symbols gives a different outcome: %s" % d, {})
+            else:
+                chk.side_check("twin relations file with upper-case symbols", True)
+        except BaseException as e:
+            if isinstance(e, (KeyboardInterrupt, SystemExit)):
+                raise
+            chk.violation("twin:relations-file-upper-case", "fill_cij(table, <path>) raises %s: %s for the packaged cubic relations written with "
+                          "upper-case symbols (C11 = C22 = C33 ...)" % (type(e).__name__, str(e)[:100]), {})
         # (5) the command line: each flag alone switches off exactly its own refusal
         try:
             from click.testing import CliRunner
@@ -710,6 +764,7 @@ def main():
         if tier != "quick" or system in ("cubic", "hexagonal"):
             passthrough_obligation(chk, F, system, rows, canon, rng)
     triclinic_obligation(chk, F, rng)
+    empty_set_obligation(chk, F, rng)
     configuration_twins(chk, F, rng)
     chk.bound(systems=systems, supplied_sets="canonical, full non-zero, canonical minus one key%s" % ("" if tier == "quick" else " (each), 3 exchanges"),
               flags="all 4 combinations", residual_atol=[0.1] if tier == "quick" else [0.1, 1e-4], rows=1 if tier == "quick" else 2,
